@@ -95,16 +95,41 @@ def cluster_real(X, f, mx, phi, t):
     return [ids[id(s)] for s in seeds], [float(x) for x in nbc.distances]
 
 
-def run_cases(ctx, rng, n_cases, sl):
+def exhaustive_cases():
+    """small-scope exhaustive enumeration: 3 and 4 individuals at distinct points of {0,1,3,7} (every
+    input order), every fitness assignment over {0,1,2} (all tie patterns), both directions,
+    two distance factors, with and without truncation"""
+    import itertools
+
+    pts = [0.0, 1.0, 3.0, 7.0]
+    for n in (3, 4):
+        for pos in itertools.permutations(pts, n):
+            X = np.array(pos, dtype=float).reshape(n, 1)
+            for fs in itertools.product([0.0, 1.0, 2.0], repeat=n):
+                f = np.array(fs, dtype=float)
+                for mx in (False, True):
+                    for phi in (1.0, 2.0):
+                        for t in (1.0, 0.7):
+                            yield X, f, mx, phi, t
+
+
+def run_cases(ctx, rng, n_cases, sl, cases=None):
     lines, metas = [], []
-    for _ in range(n_cases):
-        X, f = gen_pop(rng)
+    if cases is None:
+        def _random_cases():
+            for _ in range(n_cases):
+                X, f = gen_pop(rng)
+                if len(X) < 2:
+                    continue
+                mx = bool(rng.random() < 0.5)
+                phi = float(rng.choice([0.5, 1.0, 2.0, 3.0, 4.0, rng.uniform(0.5, 4)]))
+                t = float(rng.choice([1.0, 1.0, 0.7, 0.5, 0.8, rng.uniform(0.05, 1)]))
+                yield X, f, mx, phi, t
+        cases = _random_cases()
+    if rng is None:
+        rng = np.random.default_rng(12345)
+    for X, f, mx, phi, t in cases:
         n = len(X)
-        if n < 2:
-            continue
-        mx = bool(rng.random() < 0.5)
-        phi = float(rng.choice([0.5, 1.0, 2.0, 3.0, 4.0, rng.uniform(0.5, 4)]))
-        t = float(rng.choice([1.0, 1.0, 0.7, 0.5, 0.8, rng.uniform(0.05, 1)]))
         if int(n * t) == 0:
             sl.skipped += 1
             sl.count("skipped:empty-truncation(IndexError in the code, outside the domain)")
@@ -182,6 +207,17 @@ def run_cases(ctx, rng, n_cases, sl):
 def run(ctx):
     sl = Slice("NearestBetterClustering-vs-NBC.cluster/NBC.spec")
     run_cases(ctx, ctx.rng(1), ctx.size(400, 6000), sl)
+    if ctx.thorough:
+        import itertools
+
+        ex = Slice("NBC-exhaustive(n<=4,fitness-in-{0,1,2},all-orders)")
+        it = exhaustive_cases()
+        while True:
+            chunk = list(itertools.islice(it, 4000))
+            if not chunk:
+                break
+            run_cases(ctx, None, 0, ex, cases=chunk)
+        return [sl, ex]
     return [sl]
 
 
